@@ -138,6 +138,17 @@ theorem read_after_write (m : PqV.Impl.ThriftSer.Marker) (es : List (Nat × PqV.
       PqV.Impl.ThriftSer.fromBuffer (out ++ tail) = some (PqV.Impl.ThriftSer.pyOf (.struct fs), tail) :=
   PqV.Impl.ThriftSer.fromBuffer_toBytes m es fs tail h
 
+/-- **losslessness, end to end over the models of the real code**: write `x`, read the bytes back,
+    and the structure obtained has exactly the IDL-level reading `x` had — `spec (read (write x)) =
+    spec x` — for every structure with such a reading, at any nesting depth. -/
+theorem roundtrip_same_reading (m : PqV.Impl.ThriftSer.Marker) (es : List (Nat × PqV.Impl.ThriftSer.PyT))
+    (fs : List (Nat × PqV.Spec.TVal)) (tail : List Nat)
+    (h : PqV.Impl.ThriftSer.specThrift ((PqV.Impl.ThriftSer.PyT.dict m es).weight + 2) m es = some fs) :
+    ∃ out m' es', PqV.Impl.ThriftSer.toBytes (.dict m es) = some out ∧
+      PqV.Impl.ThriftSer.fromBuffer (out ++ tail) = some (.dict m' es', tail) ∧
+      ∀ fuel, 15 + PqV.Impl.ThriftSer.needFields fs ≤ fuel → PqV.Impl.ThriftSer.specThrift fuel m' es' = some fs :=
+  PqV.Impl.ThriftSer.roundtrip_same_reading m es fs tail h
+
 /-- the reader model inverts the SPECIFICATION encoder on every canonical structure (so it reads what
     any conforming writer emits for these shapes, not only what fastparquet's serialiser emits) -/
 theorem reader_inverts_spec_encoder (fs : List (Nat × PqV.Spec.TVal)) (hc : PqV.Impl.ThriftSer.canonFields 0 fs = true) (tail : List Nat) :
